@@ -50,13 +50,15 @@ type msmCase struct {
 	cx      *groupCtx
 	n       int
 	tb      *table
-	idx     []int32 // table index, -1 = point at infinity
+	tbs     []*table // per-term table (nil entries / nil slice: cs.tb)
+	idx     []int32  // table index, -1 = point at infinity
 	neg     []bool
 	sc      []*big.Int
 	ptClass string
 	scClass string
 	tie     bool   // scalars of adjacent inputs were made equal (same bucket in every chunk)
 	entry   string // "" for MultiExp, "fold_" for Fold (label prefix)
+	note    string // construction parameters (cancellation classes)
 	in      inputH
 	exp     *big.Int // expected dlog
 }
@@ -299,6 +301,14 @@ func (cs *msmCase) tieScalars() {
 	cs.tie = true
 }
 
+// tableOf returns the table term i is taken from.
+func (cs *msmCase) tableOf(i int) *table {
+	if cs.tbs != nil && cs.tbs[i] != nil {
+		return cs.tbs[i]
+	}
+	return cs.tb
+}
+
 // build materialises the library input and the expected dlog.
 func (cs *msmCase) build() {
 	in := cs.cx.ad.NewInput(cs.n)
@@ -306,34 +316,41 @@ func (cs *msmCase) build() {
 		if cs.idx[i] < 0 {
 			in.SetInf(i)
 		} else {
-			in.SetPoint(i, cs.tb.h, int(cs.idx[i]), cs.neg[i])
+			in.SetPoint(i, cs.tableOf(i).h, int(cs.idx[i]), cs.neg[i])
 		}
 		in.SetScalar(i, cs.sc[i])
 	}
 	cs.in = in
-	cs.exp = cs.cx.expectedDlog(cs.tb, cs.idx, cs.neg, cs.sc)
+	cs.exp = cs.cx.expectedDlog(cs.tableOf, cs.idx, cs.neg, cs.sc)
 }
 
 type multiset struct {
 	repeat, opposite, infinity, distinct bool
 	zeroScalar, maxScalar                bool
+	allTrivial                           bool // every term has a zero scalar or is the point at infinity
 }
 
 // measure classifies what the generator actually produced.
 func (cs *msmCase) measure() multiset {
 	var ms multiset
-	seen := map[int32]uint8{}
+	ms.allTrivial = true
+	seen := map[int64]uint8{}
 	rm1 := new(big.Int).Sub(cs.cx.r, big.NewInt(1))
-	for i, j := range cs.idx {
+	for i, j32 := range cs.idx {
+		j := int64(j32)
 		if cs.sc[i].Sign() == 0 {
 			ms.zeroScalar = true
 		} else if cs.sc[i].Cmp(rm1) == 0 {
 			ms.maxScalar = true
 		}
+		if j32 >= 0 && cs.sc[i].Sign() != 0 {
+			ms.allTrivial = false
+		}
 		if j < 0 {
 			ms.infinity = true
 			continue
 		}
+		j |= int64(cs.tableOf(i).id) << 32
 		bit := uint8(1)
 		if cs.neg[i] {
 			bit = 2
@@ -347,10 +364,10 @@ func (cs *msmCase) measure() multiset {
 		}
 	}
 	// the pool contains P and -P as separate entries as well (dlog a and r-a)
-	if !ms.opposite && cs.tb != nil && cs.tb.kind == "pool" {
+	if !ms.opposite && cs.tbs == nil && cs.tb != nil && cs.tb.kind == "pool" {
 		dl := map[string]bool{}
 		for j, b := range seen {
-			a := cs.tb.dlog(int(j))
+			a := cs.tb.dlog(int(int32(j)))
 			if b&1 != 0 {
 				dl[a.String()] = true
 			}
@@ -380,6 +397,9 @@ func (cs *msmCase) hash() uint64 {
 		} else {
 			b[4] = 0
 		}
+		if j >= 0 {
+			b[4] |= cs.tableOf(i).id << 1
+		}
 		h.Write(b[:5])
 		h.Write(cs.sc[i].Bytes())
 		h.Write([]byte{0xff})
@@ -388,7 +408,14 @@ func (cs *msmCase) hash() uint64 {
 }
 
 func (cs *msmCase) describe() string {
-	s := fmt.Sprintf("%s n=%d table=%s pts=%s sc=%s tie=%v", cs.cx.ad.ID(), cs.n, cs.tb.kind, cs.ptClass, cs.scClass, cs.tie)
+	kind := "mixed"
+	if cs.tbs == nil {
+		kind = cs.tb.kind
+	}
+	s := fmt.Sprintf("%s n=%d table=%s pts=%s sc=%s tie=%v", cs.cx.ad.ID(), cs.n, kind, cs.ptClass, cs.scClass, cs.tie)
+	if cs.note != "" {
+		s += " " + cs.note
+	}
 	if cs.n <= 12 {
 		s += " ["
 		for i := range cs.idx {
@@ -399,7 +426,7 @@ func (cs *msmCase) describe() string {
 			if cs.idx[i] < 0 {
 				s += fmt.Sprintf(" (O,%s)", cs.sc[i].Text(16))
 			} else {
-				s += fmt.Sprintf(" (%sT%d,%s)", sign, cs.idx[i], cs.sc[i].Text(16))
+				s += fmt.Sprintf(" (%s%s%d,%s)", sign, cs.tableOf(i).letter, cs.idx[i], cs.sc[i].Text(16))
 			}
 		}
 		s += " ]"
